@@ -102,7 +102,41 @@ def _gen():
     ]
     for name, d, et, nl in specs3d:
         lib[name] = raw_of(d.Mesh_Extrude([], [0, 0, 0.5], [nl], et), name)
+    lib["mixed_a"] = _mixed(2, 2, "mixed_a")
+    lib["mixed_b"] = _mixed(3, 2, "mixed_b")
     return lib
+
+
+def _mixed(nx, ny, name):
+    """[0, 2] x [0, 1]: TRI3 on the left half, QUAD4 on the right half (what gmsh gives when only some surfaces are
+    recombined), groups in gmsh id order (TRI3 before QUAD4: not alphabetical), boundary SEG2 group with the edge tags
+    L0 (bottom), L1 (right), L2 (top), L3 (left) and S0 on both surface groups.  Opt-in: see names(mixed=True)."""
+    xs, ys = np.linspace(0, 2, 2 * nx + 1), np.linspace(0, 1, ny + 1)
+    X, Y = np.meshgrid(xs, ys, indexing="ij")
+    coord = np.c_[X.ravel(), Y.ravel(), np.zeros(X.size)]
+
+    def n(i, j):
+        return i * (ny + 1) + j
+
+    tris, quads, segs = [], [], []
+    for i in range(2 * nx):
+        for j in range(ny):
+            a, b, c, d = n(i, j), n(i + 1, j), n(i + 1, j + 1), n(i, j + 1)
+            if i < nx:
+                tris += [[a, b, c], [a, c, d]]
+            else:
+                quads += [[a, b, c, d]]
+    for i in range(2 * nx):
+        segs += [[n(i, 0), n(i + 1, 0)], [n(i + 1, ny), n(i, ny)]]
+    for j in range(ny):
+        segs += [[n(2 * nx, j), n(2 * nx, j + 1)], [n(0, j + 1), n(0, j)]]
+    tris, quads, segs = np.array(tris), np.array(quads), np.array(segs)
+    nodes = np.arange(coord.shape[0])
+    edge = {"L0": nodes[coord[:, 1] == 0], "L1": nodes[coord[:, 0] == 2], "L2": nodes[coord[:, 1] == 1], "L3": nodes[coord[:, 0] == 0]}
+    tags = {"SEG2": edge, "TRI3": {"S0": np.unique(tris)}, "QUAD4": {"S0": np.unique(quads)}}
+    raw = RawMesh(name, [("SEG2", segs), ("TRI3", tris), ("QUAD4", quads)], coord, tags)
+    raw.mixed = True
+    return raw
 
 
 def library() -> dict:
@@ -114,9 +148,12 @@ def library() -> dict:
     return _LIB
 
 
-def names(dim=None, maxNn=None, order=None):
+def names(dim=None, maxNn=None, order=None, mixed=False):
+    """Names of the library meshes; meshes with several main-dimension groups only on request."""
     out = []
     for k, r in library().items():
+        if getattr(r, "mixed", False) and not mixed:
+            continue
         et = r.main[0][0]
         d = 3 if et.startswith(("HEXA", "TETRA", "PRISM")) else (2 if et.startswith(("TRI", "QUAD")) else 1)
         if dim is not None and d != dim:
